@@ -93,6 +93,40 @@ def main(argv):
                 ck.count("call_sequence_" + cls, 1)
                 if not same and corr_bad is None:
                     corr_bad = {"cls": cls, "labels": labels, "nphys": nphys, "instrs": [[a, list(b), c] for a, b, c in instrs]}
+    # thorough: the bundled benchmark circuits transpiled offline against fake backends (cx and ecr bases, linear and scattered layouts)
+    if ck.tier == "thorough":
+        import io, contextlib
+        from qiskit import transpile
+        from qiskit_ibm_runtime import fake_provider
+        from quantum_gates._utility.quantum_algorithms import hadamard_reverse_qft_circ, ghz_circ
+        from quantum_gates._utility.device_parameters import DeviceParameters
+        for bname, layout in (("FakeManilaV2", [0, 1, 2, 3]), ("FakeKyiv", [0, 1, 2, 3]), ("FakeKyiv", [4, 5, 6, 15]), ("FakeBrisbane", [0, 14, 18, 19])):
+            try:
+                b = getattr(fake_provider, bname)()
+            except Exception:  # noqa: backend data not bundled
+                continue
+            for gen, want in ((hadamard_reverse_qft_circ, lambda n: {"0" * n: 1.0}), (ghz_circ, lambda n: {"0" * n: 0.5, "1" * n: 0.5})):
+                for n in (2, 3, 4):
+                    t = transpile(gen(n), b, scheduling_method="asap", initial_layout=layout[:n], seed_transpiler=42)
+                    used = sorted({q._index for i in t.data for q in i.qubits if i.operation.name != "delay"})
+                    dp = DeviceParameters(list(range(max(used) + 1)))
+                    with contextlib.redirect_stdout(io.StringIO()):
+                        dp.load_from_backend(b)
+                    psi0 = np.zeros(2 ** len(used)); psi0[0] = 1
+                    classes = ["EfficientCircuit", "BinaryCircuit"] if used == list(range(len(used))) else ["BinaryCircuit"]
+                    for cls in classes:
+                        ck.count("transpiled_benchmarks", 1, key=(bname, tuple(layout[:n]), gen.__name__, cls))
+                        try:
+                            from quantum_gates._simulation.simulator import MrAndersonSimulator
+                            res = MrAndersonSimulator(gates=noise_free_gates, CircuitClass=sc.circuit_class(cls)).run(
+                                t_qiskit_circ=t, qubits_layout=used, psi0=psi0, shots=1, device_param=dp.__dict__(), nqubit=len(used))
+                            w = want(n)
+                            # ancilla qubits the router used are measured out implicitly: compare the marginal on the first n key characters is not defined; require the outcome set
+                            good = all(abs(sum(v for k, v in res.items() if k == kk) - pv) < 1e-9 for kk, pv in w.items()) if len(next(iter(res))) == n else None
+                        except Exception as e:  # noqa
+                            good = False; res = "%s: %s" % (type(e).__name__, str(e)[:80])
+                        if good is False and first is None:
+                            first = {"cls": cls, "labels": used, "what": "transpiled %s(%d) on %s layout %s: outcome %r is not the documented ideal outcome" % (gen.__name__, n, bname, layout[:n], res), "backend": bname, "layout": layout[:n], "generator": gen.__name__, "n": n}
     ck.oblige("correspondence: real call sequence == sequence predicted from the regenerated tables", corr_bad is None and C is not None)
     ck.oblige("oracle: noise-free runs == Qiskit marginals (all classes), fix_counts key reversal", first is None)
     if first:
